@@ -26,10 +26,12 @@ import (
 	"time"
 
 	awskinesis "github.com/aws/aws-sdk-go-v2/service/kinesis"
+	kinesistypes "github.com/aws/aws-sdk-go-v2/service/kinesis/types"
 	gproto "google.golang.org/protobuf/proto"
 	"google.golang.org/protobuf/types/known/timestamppb"
 	"reduction.dev/reduction-protocol/handlerpb"
 	"reduction.dev/reduction-protocol/jobconfigpb"
+	protocolkinesis "reduction.dev/reduction-protocol/kinesispb"
 	"reduction.dev/reduction/batching"
 	"reduction.dev/reduction/connectors"
 	"reduction.dev/reduction/connectors/embedded"
@@ -53,7 +55,7 @@ type eng struct{}
 
 func (eng) Name() string { return "splits" }
 func (eng) CoqRequire(mode string) string {
-	return "From Coq Require Import List NArith. Import ListNotations.\nFrom RV Require Import Model.SplitTracker Model.Splitters Model.RunnerLoop Model.HttpReader Corr.Check_splits."
+	return "From Coq Require Import List NArith. Import ListNotations.\nFrom RV Require Import Model.SplitTracker Model.Splitters Model.RunnerLoop Model.HttpReader Model.KinReader Corr.Check_splits."
 }
 func (eng) CoqCaseType(mode string) string { return "Check_splits.case" }
 func (eng) CoqRun(mode string) string      { return "Check_splits.run" }
@@ -65,6 +67,8 @@ func (eng) Rule(mode string) string {
 		return "random op sequences (load/add/track/remove/available/assigned) on the real SplitTracker over 8 shard ids with parent links. Non-trivial: some AvailableSplits call withheld a child."
 	case "kinesis":
 		return "split/merge lineage histories on kinesisfake with discovery ticks, finished shards (single and pairs), checkpoints and restores at random points, 1..4 runners. Non-trivial: at least one reshard and one restore or one withheld child."
+	case "kinread":
+		return "the real kinesis SourceReader against kinesisfake: 1..3 shards with records, GetRecords limit 1..3 (one shard polled per read, round robin), random put / read / Checkpoint / recovery-from-last-checkpoint sequences incl. chains of recoveries with a checkpoint before every shard was polled again, shards closed by a split. Non-trivial: a checkpoint taken after a recovery before every held shard was polled again."
 	case "httpread":
 		return "the real httpapi SourceReader against the httpapitest server: bounded topics of 0..12 records, server page size 0 (all) ..4, random sequences of ReadEvents / Checkpoint / restore-from-last-checkpoint, always continued past end of input. Non-trivial: the last page carries records together with eoi and a checkpoint is taken after it."
 	default:
@@ -893,6 +897,7 @@ var parks sync.Map
 var (
 	fakeOnce   sync.Once
 	fakeClient *awskinesis.Client
+	fakeCtl    *kinesisfake.Fake
 	streamSeq  int
 )
 
@@ -1016,6 +1021,15 @@ func (m *memLoc) Remove(paths ...string) error {
 	return nil
 }
 
+func sharedFake() *awskinesis.Client {
+	fakeOnce.Do(func() {
+		srv, fk := kinesisfake.StartFake()
+		fakeClient = kinesis.NewLocalClient(srv.URL)
+		fakeCtl = fk
+	})
+	return fakeClient
+}
+
 // transient marks a failure of the local HTTP plumbing between the AWS SDK and kinesisfake (seen under
 // heavy machine load: "use of closed network connection" while reading a 200 response); the case is then
 // executed again from scratch on a fresh stream.
@@ -1026,7 +1040,9 @@ func isTransient(msg string) bool {
 		strings.Contains(msg, "EOF") || strings.Contains(msg, "broken pipe")
 }
 
-func execKinesis(c *hx.Case) (res *hx.Result, err error) {
+func execKinesis(c *hx.Case) (*hx.Result, error) { return retryTransient(c, execKinesisOnce) }
+
+func retryTransient(c *hx.Case, once func(*hx.Case) (*hx.Result, error)) (res *hx.Result, err error) {
 	for attempt := 0; ; attempt++ {
 		retry := false
 		func() {
@@ -1043,7 +1059,7 @@ func execKinesis(c *hx.Case) (res *hx.Result, err error) {
 					panic(p)
 				}
 			}()
-			res, err = execKinesisOnce(c)
+			res, err = once(c)
 		}()
 		if !retry {
 			return res, err
@@ -1054,11 +1070,7 @@ func execKinesis(c *hx.Case) (res *hx.Result, err error) {
 func execKinesisOnce(c *hx.Case) (*hx.Result, error) {
 	nr := pint(c, "runners", 2)
 	nshards := pint(c, "shards", 2)
-	fakeOnce.Do(func() {
-		srv, _ := kinesisfake.StartFake()
-		fakeClient = kinesis.NewLocalClient(srv.URL)
-	})
-	client := fakeClient
+	client := sharedFake()
 	bg := context.Background()
 	streamSeq++
 	name := fmt.Sprintf("s%d", streamSeq)
@@ -1214,7 +1226,7 @@ func execKinesisOnce(c *hx.Case) (*hx.Result, error) {
 	var ckLast uint64
 	var ckFin map[uint64]bool
 	haveCk := false
-	nresh, nrestore, nck := 0, 0, 0
+	nresh, nrestore, nck, nstale := 0, 0, 0, 0
 	withheld, lostClass := false, false
 
 	openShards := func() []*kshard {
@@ -1320,12 +1332,31 @@ func execKinesisOnce(c *hx.Case) (*hx.Result, error) {
 			// state and publishes; the splitter is restored from the published checkpoint
 			cid, err := store.CreateCheckpoint(nil, runners)
 			must(err)
+			if op.K%3 == 1 {
+				// a reassembly aborts checkpoint cid while it is in flight; the next checkpoint starts; then the
+				// LATE report of a surviving runner for the aborted checkpoint arrives (positions of the old barrier)
+				nstale++
+				var stale [][]byte
+				for _, s := range stream {
+					if epoch[s.id] && !fin[s.id] {
+						b, err := gproto.Marshal(&kinesispb.Shard{ShardId: sidStr(s.id), Cursor: strconv.FormatUint(500000+s.id, 10)})
+						must(err)
+						stale = append(stale, b)
+					}
+				}
+				store.AbortPendingCheckpoint()
+				old := cid
+				cid, err = store.CreateCheckpoint(nil, runners)
+				must(err)
+				_ = store.AddSourceSnapshot(&jobpb.SourceRunnerCheckpointCompleteRequest{CheckpointId: old, SourceRunnerId: runners[0], SplitStates: stale})
+			}
 			for ri, rid := range runners {
 				var st [][]byte
 				if ri == 0 {
 					st = states
 				}
-				must(store.AddSourceSnapshot(&jobpb.SourceRunnerCheckpointCompleteRequest{CheckpointId: cid, SourceRunnerId: rid, SplitStates: st}))
+				// a refusal of the genuine report shows in the published positions
+				_ = store.AddSourceSnapshot(&jobpb.SourceRunnerCheckpointCompleteRequest{CheckpointId: cid, SourceRunnerId: rid, SplitStates: st})
 			}
 			select {
 			case <-ckEvents:
@@ -1361,7 +1392,22 @@ func execKinesisOnce(c *hx.Case) (*hx.Result, error) {
 			}
 			ckAssignedTerm = hx.CoqList(at, "shard")
 			ckLast = sidNum(st.LastAssignedShardId)
-			terms = append(terms, fmt.Sprintf("KCkpt %s %d", ckAssignedTerm, ckLast))
+			var pubt []string
+			for _, b := range ckStates {
+				var sh kinesispb.Shard
+				must(gproto.Unmarshal(b, &sh))
+				cu := uint64(0)
+				if sh.Cursor != "" {
+					x, err := strconv.ParseUint(sh.Cursor, 10, 64)
+					if err != nil {
+						x = 888888
+					}
+					cu = x
+				}
+				pubt = append(pubt, hx.CoqPair(hx.CoqN(sidNum(sh.ShardId)), hx.CoqN(cu)))
+			}
+			terms = append(terms, fmt.Sprintf("KCkpt %s %d %s %s", ckAssignedTerm, ckLast, hx.CoqList(stt, "N * N"), hx.CoqList(pubt, "N * N")))
+			stt = pubt // the splitter is restored from what was published
 			ckStatesTerm = hx.CoqList(stt, "N * N")
 			ckFin = map[uint64]bool{}
 			for k := range fin {
@@ -1406,6 +1452,9 @@ func execKinesisOnce(c *hx.Case) (*hx.Result, error) {
 	}
 	if nrestore > 0 && haveCk {
 		tags = append(tags, "restored_from_ckpt")
+	}
+	if nstale > 0 {
+		tags = append(tags, "late_report_for_aborted_ckpt")
 	}
 	nt := nresh > 0 && (nrestore > 0 || withheld)
 	return &hx.Result{Term: fmt.Sprintf("(CKinesis %d %s)", nr, hx.CoqList(terms, "kev")), Nontrivial: nt, Tags: tags, Observed: terms}, nil
@@ -1555,6 +1604,257 @@ func execStatic(c *hx.Case) (*hx.Result, error) {
 }
 
 // =====================================================================================================
+// mode kinread: the real kinesis SourceReader against kinesisfake
+// =====================================================================================================
+
+type krop struct {
+	Kind  string `json:"kind"` // put | close | read | ckpt | restore
+	Count int    `json:"count,omitempty"`
+	K     int    `json:"k,omitempty"`
+}
+
+func genKinRead(r *hx.Rand, tier string) *hx.Case {
+	var ops []json.RawMessage
+	ops = append(ops, hx.Op(krop{Kind: "put", Count: r.Range(3, 9), K: r.Intn(1000)}))
+	n := r.Range(6, 22)
+	if tier == "thorough" {
+		n = r.Range(6, 40)
+	}
+	for i := 0; i < n; i++ {
+		switch x := r.Intn(20); {
+		case x < 9:
+			ops = append(ops, hx.Op(krop{Kind: "read"}))
+		case x < 12:
+			ops = append(ops, hx.Op(krop{Kind: "ckpt"}))
+		case x < 14:
+			ops = append(ops, hx.Op(krop{Kind: "restore"}))
+		case x < 16:
+			// a recovery, a barrier before every shard was polled again, and the next recovery
+			ops = append(ops, hx.Op(krop{Kind: "restore"}))
+			for j := r.Intn(2); j > 0; j-- {
+				ops = append(ops, hx.Op(krop{Kind: "read"}))
+			}
+			ops = append(ops, hx.Op(krop{Kind: "ckpt"}), hx.Op(krop{Kind: "restore"}))
+		case x < 19:
+			ops = append(ops, hx.Op(krop{Kind: "put", Count: r.Range(1, 4), K: r.Intn(1000)}))
+		default:
+			ops = append(ops, hx.Op(krop{Kind: "close", K: r.Intn(3)}))
+		}
+	}
+	ops = append(ops, hx.Op(krop{Kind: "ckpt"}))
+	return &hx.Case{Name: "kinread", Params: map[string]any{"mode": "kinread", "shards": r.Range(1, 3), "limit": r.Range(1, 3)}, Ops: ops}
+}
+
+func execKinRead(c *hx.Case) (*hx.Result, error) { return retryTransient(c, execKinReadOnce) }
+
+func execKinReadOnce(c *hx.Case) (*hx.Result, error) {
+	nshards, limit := pint(c, "shards", 2), pint(c, "limit", 2)
+	client := sharedFake()
+	chk := func(err error) {
+		if err != nil {
+			panic(transient{err.Error()})
+		}
+	}
+	bg := context.Background()
+	streamSeq++
+	name := fmt.Sprintf("s%d", streamSeq)
+	n32 := int32(nshards)
+	_, err := client.CreateStream(bg, &awskinesis.CreateStreamInput{StreamName: &name, ShardCount: &n32})
+	chk(err)
+	d, err := client.DescribeStream(bg, &awskinesis.DescribeStreamInput{StreamName: &name})
+	chk(err)
+	arn := *d.StreamDescription.StreamARN
+	fakeCtl.SetGetRecordsLimit(limit)
+	defer fakeCtl.SetGetRecordsLimit(10000)
+	cfg := kinesis.SourceConfig{StreamARN: arn, Client: client}
+
+	where := map[string][2]uint64{} // record data -> (shard, position)
+	have := map[uint64]int{}        // shard -> records known
+	var terms []string
+	seq := 0
+	// truth reads every initial shard from the start with its own iterator (explicit limit)
+	truth := func() {
+		for i := 0; i < nshards; i++ {
+			id := sidStr(uint64(i + 1))
+			it, err := client.GetShardIterator(bg, &awskinesis.GetShardIteratorInput{StreamARN: &arn, ShardId: &id, ShardIteratorType: "TRIM_HORIZON"})
+			chk(err)
+			lim := int32(10000)
+			out, err := client.GetRecords(bg, &awskinesis.GetRecordsInput{StreamARN: &arn, ShardIterator: it.ShardIterator, Limit: &lim})
+			chk(err)
+			for p, rec := range out.Records {
+				where[string(rec.Data)] = [2]uint64{uint64(i + 1), uint64(p)}
+			}
+			if delta := len(out.Records) - have[uint64(i+1)]; delta > 0 {
+				terms = append(terms, fmt.Sprintf("RPut %d %d", i+1, delta))
+				have[uint64(i+1)] = len(out.Records)
+			}
+		}
+	}
+	var finished []uint64
+	closed := map[uint64]bool{}
+	gone := map[uint64]bool{} // shards the reader reported finished
+	newReader := func() connectors.SourceReader {
+		return kinesis.NewSourceReader(cfg, connectors.SourceReaderHooks{NotifySplitsFinished: func(ids []string) {
+			for _, id := range ids {
+				finished = append(finished, sidNum(id))
+			}
+		}})
+	}
+	assign := func(rd connectors.SourceReader, fresh bool, sp [][2]uint64, cursors map[uint64]string) {
+		var splits []*workerpb.SourceSplit
+		var tm []string
+		for _, x := range sp {
+			cur := cursors[x[0]]
+			pos := uint64(0)
+			if cur != "" {
+				v, _ := strconv.ParseUint(cur, 10, 64)
+				pos = v + 1
+			}
+			splits = append(splits, &workerpb.SourceSplit{SplitId: sidStr(x[0]), SourceId: "x", Cursor: []byte(cur)})
+			tm = append(tm, hx.CoqPair(hx.CoqN(x[0]), hx.CoqN(pos)))
+		}
+		must(rd.AssignSplits(splits))
+		terms = append(terms, fmt.Sprintf("RAssign %s %s", hx.CoqBool(fresh), hx.CoqList(tm, "N * N")))
+	}
+	rd := newReader()
+	var all [][2]uint64
+	for i := 0; i < nshards; i++ {
+		all = append(all, [2]uint64{uint64(i + 1), 0})
+	}
+	assign(rd, true, all, nil)
+	// last checkpoint: shards held and their cursors, as the job would restore them (splitter state lists the shard,
+	// the cursor comes from the reader's split state; a shard without a split state starts from TRIM_HORIZON)
+	var ckHeld [][2]uint64
+	ckCursors := map[uint64]string{}
+	haveCk := false
+	held := func() [][2]uint64 {
+		var h [][2]uint64
+		for i := 0; i < nshards; i++ {
+			if !gone[uint64(i+1)] {
+				h = append(h, [2]uint64{uint64(i + 1), 0})
+			}
+		}
+		return h
+	}
+	nrestore, ckRightAfterRestore, sinceRestore := 0, false, -1
+	for _, raw := range c.Ops {
+		var op krop
+		if err := json.Unmarshal(raw, &op); err != nil {
+			return nil, err
+		}
+		switch op.Kind {
+		case "put":
+			var entries []kinesistypes.PutRecordsRequestEntry
+			for i := 0; i < op.Count; i++ {
+				seq++
+				key := fmt.Sprintf("k%d-%d", op.K, seq)
+				entries = append(entries, kinesistypes.PutRecordsRequestEntry{Data: []byte(fmt.Sprintf("d%d", seq)), PartitionKey: &key})
+			}
+			if _, err := client.PutRecords(bg, &awskinesis.PutRecordsInput{StreamARN: &arn, Records: entries}); err != nil {
+				if isTransient(err.Error()) {
+					chk(err)
+				}
+				continue // no open shard left
+			}
+			truth()
+		case "close":
+			id := uint64(op.K%nshards + 1)
+			if closed[id] {
+				continue
+			}
+			var lo, hi *big.Int
+			out, err := client.ListShards(bg, &awskinesis.ListShardsInput{StreamName: &name})
+			chk(err)
+			for _, sh := range out.Shards {
+				if sidNum(*sh.ShardId) == id {
+					lo, _ = new(big.Int).SetString(*sh.HashKeyRange.StartingHashKey, 10)
+					hi, _ = new(big.Int).SetString(*sh.HashKeyRange.EndingHashKey, 10)
+				}
+			}
+			mid := new(big.Int).Add(lo, hi)
+			mid.Div(mid, big.NewInt(2))
+			ids, ms := sidStr(id), mid.String()
+			if _, err := client.SplitShard(bg, &awskinesis.SplitShardInput{StreamName: &name, ShardToSplit: &ids, NewStartingHashKey: &ms}); err != nil {
+				if isTransient(err.Error()) {
+					chk(err)
+				}
+				continue
+			}
+			closed[id] = true
+			terms = append(terms, fmt.Sprintf("RClose %d", id))
+		case "read":
+			finished = nil
+			evs, err := rd.ReadEvents()
+			if err != nil {
+				panic(transient{err.Error()})
+			}
+			var recs []string
+			for _, e := range evs {
+				var pr protocolkinesis.Record
+				must(gproto.Unmarshal(e, &pr))
+				w, ok := where[string(pr.Data)]
+				if !ok {
+					w = [2]uint64{999, 999}
+				}
+				recs = append(recs, hx.CoqPair(hx.CoqN(w[0]), hx.CoqN(w[1])))
+			}
+			var fs []string
+			for _, f := range finished {
+				fs = append(fs, hx.CoqN(f))
+				gone[f] = true
+			}
+			if sinceRestore >= 0 {
+				sinceRestore++
+			}
+			terms = append(terms, fmt.Sprintf("RRead %s %s", hx.CoqList(recs, "N * N"), hx.CoqList(fs, "N")))
+		case "ckpt":
+			st := rd.Checkpoint()
+			var tm []string
+			ckCursors = map[uint64]string{}
+			for _, b := range st {
+				var sh kinesispb.Shard
+				must(gproto.Unmarshal(b, &sh))
+				pos := uint64(0)
+				if sh.Cursor != "" {
+					v, err := strconv.ParseUint(sh.Cursor, 10, 64)
+					if err != nil {
+						v = 888887
+					}
+					pos = v + 1
+				}
+				ckCursors[sidNum(sh.ShardId)] = sh.Cursor
+				tm = append(tm, hx.CoqPair(hx.CoqN(sidNum(sh.ShardId)), hx.CoqN(pos)))
+			}
+			ckHeld = held()
+			haveCk = true
+			if sinceRestore >= 0 && sinceRestore < len(ckHeld) && len(ckHeld) > 1 {
+				ckRightAfterRestore = true
+			}
+			terms = append(terms, "RCkpt "+hx.CoqList(tm, "N * N"))
+		case "restore":
+			rd = newReader()
+			nrestore++
+			sinceRestore = 0
+			if haveCk {
+				// finished-after-the-checkpoint shards are read again from the checkpoint
+				for _, x := range ckHeld {
+					delete(gone, x[0])
+				}
+				assign(rd, true, ckHeld, ckCursors)
+			} else {
+				gone = map[uint64]bool{}
+				assign(rd, true, all, nil)
+			}
+		}
+	}
+	tags := []string{fmt.Sprintf("shards=%d", nshards), fmt.Sprintf("limit=%d", limit), fmt.Sprintf("restores=%d", min(nrestore, 4))}
+	if ckRightAfterRestore {
+		tags = append(tags, "ckpt_before_all_shards_polled_again")
+	}
+	return &hx.Result{Term: fmt.Sprintf("(CKinRead %d %s)", limit, hx.CoqList(terms, "krop")), Nontrivial: ckRightAfterRestore, Tags: tags, Observed: terms}, nil
+}
+
+// =====================================================================================================
 // mode httpread: the real httpapi SourceReader against the httpapitest server
 // =====================================================================================================
 
@@ -1697,6 +1997,14 @@ func (eng) Generate(mode, tier string, r *hx.Rand) []*hx.Case {
 		}
 	case "static":
 		cs = genStatic(r, tier)
+	case "kinread":
+		k := 150
+		if tier == "thorough" {
+			k = 1200
+		}
+		for i := 0; i < k; i++ {
+			cs = append(cs, genKinRead(r.Fork(), tier))
+		}
 	case "httpread":
 		k := 150
 		if tier == "thorough" {
@@ -1721,6 +2029,8 @@ func (eng) Execute(mode string, c *hx.Case) (*hx.Result, error) {
 		return execStatic(c)
 	case "httpread":
 		return execHTTPRead(c)
+	case "kinread":
+		return execKinRead(c)
 	}
 	return nil, fmt.Errorf("unknown mode %q", mode)
 }
